@@ -1,10 +1,11 @@
 import PortusModel.Lang.Compile
 import PortusModel.Vm.Machine
 /-!
-# A reference lowering of stratified programs (proof device for C01)
+# A reference lowering of the programs of the fragment of C01 (proof device)
 
 `lowerProg` is a small, type-free, scope-free compiler from the *fragment* of C01 (pure conditions,
-statements that bind a pure expression / conditional / ewma to a name) to machine instructions. It
+statements that bind a value expression — pure, possibly with plain binds used as values inside it —
+or a conditional / ewma over two such operands to a name) to machine instructions. It
 looks names up in a fixed environment `ρ : Name → Option VReg` (in the theorems: the *final* scope
 of the real compiler) and allocates temporaries from a counter. The correctness proof of the real
 compiler is split along it:
@@ -51,11 +52,18 @@ structure LE where
   k : Nat
 deriving Repr, DecidableEq, Inhabited
 
-/-- pure expressions: operands left to right, a fresh temporary per operator node -/
+/-- value expressions: operands left to right, a fresh temporary per operator node. A plain bind used
+as a value (`(:= x r)` inside an expression) runs `r`, binds its result register to the register of `x`
+and *is* that register; it allocates no temporary (the counter runs on across the whole statement).
+Pure expressions never reach that case. -/
 def lowerE (ρ : Rho) : Expr → Nat → Option LE
   | .atom (.bool b), k => some ⟨[], vImmBool b, k⟩
   | .atom (.num n), k => some ⟨[], vImmNum n, k⟩
   | .atom (.name x), k => (ρ x).map fun r => ⟨[], r, k⟩
+  | .sexp .bind (.atom (.name x)) r, k =>
+    match ρ x, lowerE ρ r k with
+    | some rx, some cr => some ⟨cr.instrs ++ [⟨1, rx, rx, cr.reg⟩], rx, cr.k⟩
+    | _, _ => none
   | .sexp o l r, k =>
     match pureOpcode o, lowerE ρ l k with
     | some code, some cl =>
